@@ -231,8 +231,8 @@ def z3_of(v):
         return ts.mk(*zs)
     if isinstance(v, Coll) and v.kind == "frozenset":
         return v.mem
-    if isinstance(v, Coll) and v.kind == "tuple" and v.items is not None:
-        return z3_of(TupleV(v.items))
+    if isinstance(v, Coll) and v.kind in ("tuple", "list") and v.items is not None and len(v.items) >= 2:
+        return z3_of(TupleV(v.items))  # a literal pair/triple used as an element ([parent, child])
     raise Unsupported(f"value {v!r} has no scalar encoding")
 
 
